@@ -262,32 +262,34 @@ def _r30_clamps(repo, sink):
             if not same_value(got, want) and not (rank_off == 1 and same_value(got, Sym("sub", q, delay))):
                 worst = worst or f"time-delay {'<' if rank_off == 0 else '==' if rank_off == 1 else '>'} start: returns {got!r}, expected {want!r}"
         sink.check(worst is None, "R30", "clamp:DelayFixed", f, ok="with_delay(t) = max(t - delay, start time)", bad=worst or "")
-    # DelayToPush: init before first notification, else min(q, push_time)
+    # DelayToPush: start time before the first notification, else min(q, newest notification).  The adapter is
+    # constructed and linked by the real code and learns the publication time from a real notification; its
+    # source here is another adapter (whose own `time` is None, as Adapter.time says) - no attribute is named.
     if repo.has_cls("DelayToPush"):
+        c = repo.cls("DelayToPush")
         f = repo.method("DelayToPush", "with_delay")
+        su = repo.method("DelayToPush", "_source_updated")
         worst = None
         push = Sym("push")
-        for pt, rq, want in ((None, 1, ini), (push, 0, q), (push, 1, q), (push, 2, push)):
+        from ..absbase import seed_from_init
+        for notified, rq, want in ((False, 1, ini), (True, 0, q), (True, 1, q), (True, 2, push)):
             o = Order()
             o.name(push, "push", 1)
             o.name(q, "q", rq)
             it = FinamInterp(repo, o)
-            me = Obj(cls=repo.cls("DelayToPush"), label="DelayToPush")
-            me.fields.update(push_time=pt, initial_time=ini)
-            got = it.run(f, [q], self_obj=me)
+            from .exchange import _adapter
+            me = _adapter(repo, c, src=Obj(label="upstream-adapter", markers={"IOutput", "IAdapter"}, fields={"time": None, "name": "up", "logger_name": "up"}))
+            me.fields.update(initial_time=ini)
+            try:
+                if notified:
+                    it.run(su, [push], self_obj=me)
+                got = it.run(f, [q], self_obj=me)
+            except (Raised, Undecided) as exc:
+                got = f"{type(exc).__name__}: {exc}"
             if got != want and not (rq == 1 and got in (q, push)):
-                worst = worst or f"push_time={pt!r}, request rank {rq}: returns {got!r}, expected {want!r}"
-        sink.check(worst is None, "R30", "clamp:DelayToPush", f, ok="with_delay(t) = start time before the first push, else min(t, newest push)", bad=worst or "")
-        su = repo.method("DelayToPush", "_source_updated")
-        o = Order()
-        tn = Sym("tn")
-        o.name(tn, "tn", 1)
-        it = FinamInterp(repo, o)
-        me = Obj(cls=repo.cls("DelayToPush"), label="DelayToPush")
-        me.fields.update(push_time=None, initial_time=ini, logger=Logger(label="logger"))
-        it.run(su, [tn], self_obj=me)
-        sink.check(me.fields["push_time"] == tn, "R30", "push-time:DelayToPush", su,
-                   ok="push_time is the notification time", bad=f"push_time after a notification is {me.fields['push_time']!r}")
+                worst = worst or (f"{'after a notification at `push`' if notified else 'before any notification'}, request "
+                                  f"{'<' if rq == 0 else '==' if rq == 1 else '>'} push: returns {got!r}, expected {want!r}")
+        sink.check(worst is None, "R30", "clamp:DelayToPush", f, ok="with_delay(t) = start time before the first notification, else min(t, newest notification)", bad=worst or "")
     # DelayToPull: n-th previous request minus extra delay, not before start
     if repo.has_cls("DelayToPull"):
         c = repo.cls("DelayToPull")
@@ -298,8 +300,10 @@ def _r30_clamps(repo, sink):
             base_reqs = [Sym("r", i) for i in range(4)]
             # request times may repeat (a component pulling twice at one time): still one request each
             reqs = [base_reqs[0], base_reqs[1], base_reqs[1], base_reqs[2], base_reqs[2], base_reqs[2], base_reqs[3]]
+            from ..absbase import seed_from_init
             me = Obj(cls=c, label="DelayToPull")
-            me.fields.update(steps=steps, additional_delay=add, _pulls=[], initial_time=ini)
+            seed_from_init(FinamInterp(repo), c, me, {"steps": steps, "additional_delay": add})
+            me.fields.update(initial_time=ini)
             hist = []
             from ..absbase import same_value
             for k, r in enumerate(reqs):
@@ -311,12 +315,20 @@ def _r30_clamps(repo, sink):
                     for j, rr in enumerate(base_reqs):
                         o.name(rr, f"r{j}", 10 + j)
                     o.name(Sym("sub", base, add), "off", rank_off)
+                    for j, rr in enumerate(base_reqs):
+                        if rr is not base and rr != base:
+                            o.name(Sym("sub", rr, add), f"r{j}-extra", 5 + j)
                     it = FinamInterp(repo, o)
                     trial = Obj(cls=c, label="DelayToPull")
-                    trial.fields.update(steps=steps, additional_delay=add, _pulls=list(me.fields["_pulls"]), initial_time=ini)
+                    trial.fields.update({kk: (type(vv)(vv) if isinstance(vv, list) else vv) for kk, vv in me.fields.items()})
                     try:
                         got = it.run(wd, [r], self_obj=trial)
                         same = same_value(got, want)
+                        # the scheduler asks for the shifted time before the adapter's own pull does: asking must not change the answer
+                        again = it.run(wd, [r], self_obj=trial)
+                        if same and not same_value(again, got) and not (rank_off == 1 and same_value(again, Sym("sub", base, add))):
+                            worst = worst or (f"steps={steps}, request #{k}: asking for the shifted time twice gives {got!r} and then {again!r}: "
+                                              "the look-ahead of the scheduler is recorded as a pull, the time it checked is not the time requested afterwards")
                     except Undecided as u:
                         got, same = f"undecided {u}", False
                     except Exception as exc:  # pylint: disable=broad-except
@@ -331,14 +343,34 @@ def _r30_clamps(repo, sink):
                 o.name(ini, "init", 1)
                 for j, rr in enumerate(base_reqs):
                     o.name(rr, f"r{j}", 10 + j)
-                first = me.fields["_pulls"][0] if me.fields["_pulls"] else ini
-                o.name(Sym("sub", first, add), "off", 2)
+                o.name(Sym("sub", base, add), "off", 2)
+                for j, rr in enumerate(base_reqs):
+                    if rr is not base and rr != base:
+                        o.name(Sym("sub", rr, add), f"r{j}-extra", 5 + j)
                 it = FinamInterp(repo, o)
                 it.run(wd, [r], self_obj=me)
                 it.run(pl, [r], self_obj=me)
                 hist.append(r)
-                if len(me.fields["_pulls"]) > steps:
-                    worst = worst or f"steps={steps}: request history grows to {len(me.fields['_pulls'])} entries"
+                longest = max([len(vv) for vv in me.fields.values() if isinstance(vv, list)] or [0])
+                if longest > steps:
+                    worst = worst or f"steps={steps}: request history grows to {longest} entries"
+            # a second adapter instance has a history of its own
+            other = Obj(cls=c, label="DelayToPull")
+            seed_from_init(FinamInterp(repo), c, other, {"steps": steps, "additional_delay": add})
+            other.fields.update(initial_time=ini)
+            o = Order()
+            o.name(ini, "init", 1)
+            for j, rr in enumerate(base_reqs):
+                o.name(rr, f"r{j}", 10 + j)
+                o.name(Sym("sub", rr, add), f"r{j}-extra", 5 + j)
+            o.name(Sym("sub", ini, add), "off", 0)
+            try:
+                got = FinamInterp(repo, o).run(wd, [base_reqs[3]], self_obj=other)
+            except (Undecided, Raised, AnalysisError) as exc:
+                got = f"{type(exc).__name__}: {exc}"
+            if isinstance(got, str) or not same_value(got, ini):
+                worst = worst or (f"steps={steps}: a second, freshly created adapter shifts its first request to {got!r} instead of the start time: "
+                                  "the request history is shared between adapter instances")
         sink.check(worst is None, "R30", "clamp:DelayToPull", wd,
                    ok="with_delay = max(n-th previous request - extra delay, start time); history keeps the last n requests",
                    bad=worst or "")
